@@ -155,76 +155,119 @@ func (p *Prov) analyseIter(ic *IterCheck) {
 	for _, b := range l.Loop.Latch {
 		latch[b] = true
 	}
-	// path enumeration with store counting (bounded)
-	type state struct {
-		b     *ssa.BasicBlock
-		count int
+	// store counting per iteration. Every store site is recorded; a path is followed only
+	// while it has stored nothing (those are the paths whose conditions matter: an
+	// iteration that stores nothing must be justified); once a path performs its first
+	// store, a plain reachability query decides whether a second store can follow.
+	sinkIdx := map[*ssa.BasicBlock][]int{}
+	for b := range region {
+		for k, in := range b.Instrs {
+			if key, v, ok := sinkOn(in, ic.Out); ok {
+				sinkIdx[b] = append(sinkIdx[b], k)
+				ic.noteSink(p, in, key, v)
+			}
+		}
 	}
-	budget := 20000
-	var dfs func(b *ssa.BasicBlock, count int, conds []Fact, onPath map[*ssa.BasicBlock]bool)
-	dfs = func(b *ssa.BasicBlock, count int, conds []Fact, onPath map[*ssa.BasicBlock]bool) {
+	// stores inside an inner loop may repeat
+	for _, il := range naturalLoops(l.Loop.Header.Parent()) {
+		if il.Header == l.Loop.Header || !region[il.Header] {
+			continue
+		}
+		for b := range il.Body {
+			for _, k := range sinkIdx[b] {
+				ic.MultiStore = append(ic.MultiStore, "store inside an inner loop at "+p.c.InstrPos(b.Instrs[k]))
+			}
+		}
+	}
+	// can a store be reached from the successors of b without passing the loop header?
+	reachMemo := map[*ssa.BasicBlock]ssa.Instruction{}
+	reachDone := map[*ssa.BasicBlock]bool{}
+	var reachStore func(b *ssa.BasicBlock) ssa.Instruction
+	reachStore = func(b *ssa.BasicBlock) ssa.Instruction {
+		if reachDone[b] {
+			return reachMemo[b]
+		}
+		reachDone[b] = true
+		seen := map[*ssa.BasicBlock]bool{}
+		var w []*ssa.BasicBlock
+		if !noReturnBlock(b) {
+			for _, s2 := range b.Succs {
+				w = append(w, s2)
+			}
+		}
+		for len(w) > 0 {
+			x := w[len(w)-1]
+			w = w[:len(w)-1]
+			if seen[x] || x == l.Loop.Header || !region[x] {
+				continue
+			}
+			seen[x] = true
+			if ks := sinkIdx[x]; len(ks) > 0 {
+				reachMemo[b] = x.Instrs[ks[0]]
+				return reachMemo[b]
+			}
+			if !noReturnBlock(x) {
+				w = append(w, x.Succs...)
+			}
+		}
+		return nil
+	}
+	budget := 200000
+	var dfs func(b *ssa.BasicBlock, conds []Fact, onPath map[*ssa.BasicBlock]bool)
+	dfs = func(b *ssa.BasicBlock, conds []Fact, onPath map[*ssa.BasicBlock]bool) {
 		if budget <= 0 {
 			return
 		}
 		budget--
 		if onPath[b] {
-			// an inner cycle: stores inside it may repeat
-			for _, in := range b.Instrs {
-				if _, _, ok := sinkOn(in, ic.Out); ok {
-					ic.MultiStore = append(ic.MultiStore, "store inside an inner loop at "+p.c.InstrPos(in))
-				}
+			return
+		}
+		if ks := sinkIdx[b]; len(ks) > 0 {
+			// first store of this path
+			if len(ks) >= 2 {
+				ic.MultiStore = append(ic.MultiStore, "second store on one iteration path at "+p.c.InstrPos(b.Instrs[ks[1]]))
+			} else if in := reachStore(b); in != nil {
+				ic.MultiStore = append(ic.MultiStore, "second store on one iteration path at "+p.c.InstrPos(in))
 			}
 			return
 		}
 		onPath[b] = true
 		defer delete(onPath, b)
-		for _, in := range b.Instrs {
-			if k, v, ok := sinkOn(in, ic.Out); ok {
-				count++
-				ic.noteSink(p, in, k, v)
-				if count >= 2 {
-					ic.MultiStore = append(ic.MultiStore, "second store on one iteration path at "+p.c.InstrPos(in))
-					return
-				}
-			}
-		}
 		reachesHeader := false
-		for _, s := range b.Succs {
-			if s == l.Loop.Header {
+		for _, s2 := range b.Succs {
+			if s2 == l.Loop.Header {
 				reachesHeader = true
 			}
 		}
 		if reachesHeader && latch[b] {
-			if count == 0 {
-				pc := conds
-				if ifb, ok := b.Instrs[len(b.Instrs)-1].(*ssa.If); ok && b.Succs[0] != b.Succs[1] {
-					pc = append(append([]Fact{}, conds...), Fact{ifb.Cond, b.Succs[0] == l.Loop.Header, ifb})
-				}
-				var atoms []Atom
-				for _, f := range expandFacts(pc) {
-					atoms = append(atoms, p.atomOf(f.Cond, f.Pol))
-				}
-				ic.ZeroPaths = append(ic.ZeroPaths, zeroPath{Atoms: atoms, Last: b})
+			pc := conds
+			if ifb, ok := b.Instrs[len(b.Instrs)-1].(*ssa.If); ok && b.Succs[0] != b.Succs[1] {
+				pc = append(append([]Fact{}, conds...), Fact{ifb.Cond, b.Succs[0] == l.Loop.Header, ifb})
 			}
+			var atoms []Atom
+			for _, f := range expandFacts(pc) {
+				atoms = append(atoms, p.atomOf(f.Cond, f.Pol))
+			}
+			ic.ZeroPaths = append(ic.ZeroPaths, zeroPath{Atoms: atoms, Last: b})
 		}
 		if noReturnBlock(b) {
 			return
 		}
 		ifi, _ := b.Instrs[len(b.Instrs)-1].(*ssa.If)
-		for i, s := range b.Succs {
-			if s == l.Loop.Header || !region[s] {
+		for i, s2 := range b.Succs {
+			if s2 == l.Loop.Header || !region[s2] {
 				continue
 			}
 			nc := conds
 			if ifi != nil && b.Succs[0] != b.Succs[1] {
 				nc = append(append([]Fact{}, conds...), Fact{ifi.Cond, i == 0, ifi})
 			}
-			dfs(s, count, nc, onPath)
+			dfs(s2, nc, onPath)
 		}
 	}
 	for _, e := range entries {
 		// conditions known at loop entry do not matter for the per-iteration count
-		dfs(e, 0, nil, map[*ssa.BasicBlock]bool{})
+		dfs(e, nil, map[*ssa.BasicBlock]bool{})
 	}
 	if budget <= 0 {
 		ic.MultiStore = append(ic.MultiStore, "path budget exhausted (loop body too branchy to decide)")
